@@ -49,7 +49,31 @@ func checkC05(c *Ctx) {
 					}
 				}
 			}
-			if member == nil {
+			var list ssa.Value
+			listAt := len(p.Blocks) - 1
+			var listSite ssa.Instruction = p.Exit()
+			if member != nil {
+				list, listAt, listSite = callArgs(&member.call.Call)[0], member.at, member.call
+			} else {
+				// the scan written out: an element of the list was found equal to the caller's key
+				for _, pr := range knownEqual(p, listAt) {
+					for k := 0; k < 2; k++ {
+						if paramIndex(fn, p.Resolve(pr[k], listAt)) != 2 {
+							continue
+						}
+						other := strip(pr[1-k])
+						if u, ok := other.(*ssa.UnOp); ok && u.Op == token.MUL {
+							if ia, ok := u.X.(*ssa.IndexAddr); ok {
+								list = ia.X
+							}
+						}
+						if ix, ok := other.(*ssa.Index); ok {
+							list = ix.X
+						}
+					}
+				}
+			}
+			if list == nil {
 				fs.add("membership", "AuthorizeKey returns success on a path where Allowed(publicKey) was not found true for the caller's key", p.Exit(), p)
 				return
 			}
@@ -57,7 +81,7 @@ func checkC05(c *Ctx) {
 			// its provenance on the path passes through the core parser and ends in the user parameter,
 			// and every call on that chain that can fail was found to have succeeded.
 			p.throughCalls = true
-			calls, leaves := provenance(p, callArgs(&member.call.Call)[0], member.at)
+			calls, leaves := provenance(p, list, listAt)
 			p.throughCalls = false
 			parsed, forUser := false, false
 			last := len(p.Blocks) - 1
@@ -78,9 +102,9 @@ func checkC05(c *Ctx) {
 				}
 			}
 			if !parsed {
-				fs.add("provenance", "AuthorizeKey returns success on a path where the key list given to Allowed was not parsed from the authorized_keys file during this call ("+describeLeaves(P, leaves)+"): a key removed from the file can still be admitted", member.call, p)
+				fs.add("provenance", "AuthorizeKey returns success on a path where the key list given to Allowed was not parsed from the authorized_keys file during this call ("+describeLeaves(P, leaves)+"): a key removed from the file can still be admitted", listSite, p)
 			} else if !forUser {
-				fs.add("provenance", "the authorized_keys file parsed by AuthorizeKey is not derived from its user argument", member.call, p)
+				fs.add("provenance", "the authorized_keys file parsed by AuthorizeKey is not derived from its user argument", listSite, p)
 			}
 		})
 		if ok {
@@ -144,7 +168,7 @@ func checkC05(c *Ctx) {
 			if r == nil || len(r.Results) != 1 {
 				return
 			}
-			v, isConst := constBool(p.Resolve(r.Results[0], len(p.Blocks)-1))
+			v, isConst := pathBool(p, r.Results[0], len(p.Blocks)-1)
 			if isConst && !v {
 				return
 			}
@@ -152,7 +176,10 @@ func checkC05(c *Ctx) {
 			eq := false
 			for _, pr := range knownEqual(p, len(p.Blocks)-1) {
 				for _, side := range pr {
+					// a comparison made in an inlined helper speaks about the helper's parameter: map it back
+					side = p.Resolve(side, len(p.Blocks)-1)
 					root, _ := accessPath(side)
+					root = p.Resolve(root, len(p.Blocks)-1)
 					if paramIndex(fn, side) == 1 || paramIndex(fn, root) == 1 {
 						eq = true
 					}
@@ -399,10 +426,18 @@ func c05R4(c *Ctx) {
 					continue
 				}
 				args := callArgs(&pc.call.Call)
-				if len(args) == 3 && paramIndex(fn, args[1]) == 1 && paramIndex(fn, args[2]) == 2 {
+				if len(args) == 3 && paramIndex(fn, p.Resolve(args[1], pc.at)) == 1 && paramIndex(fn, p.Resolve(args[2], pc.at)) == 2 {
 					ev := errResultOf(pc.call)
 					if ev != nil && (p.Nilness(ev, last) == isNil || (ret != nil && strip(ret) == strip(ev))) {
 						removed = true
+					}
+					// returned through an inlined helper: the caller's result is what the helper returned
+					if ev != nil && ret != nil && !removed {
+						p.throughCalls = true
+						if strip(p.Resolve(ret, last)) == strip(ev) {
+							removed = true
+						}
+						p.throughCalls = false
 					}
 				}
 			}
@@ -431,7 +466,13 @@ func c05R4(c *Ctx) {
 		eachInstr(f, func(ins ssa.Instruction) {
 			if fa, ok := ins.(*ssa.FieldAddr); ok && fieldOf(fa.X.Type(), fa.Field) == agMap {
 				n++
-				c.Check(allowed[FuncName(f)], "C05.R4", "access:agMap@"+FuncName(f), P.InstrPos(ins), "grant map accessed by its accessor",
+				okOwner := allowed[FuncName(f)]
+				if !okOwner {
+					if o := P.OwnerOf(f); o != nil && o != f && allowed[FuncName(o)] {
+						okOwner = true // a local helper cut out of an accessor
+					}
+				}
+				c.Check(okOwner, "C05.R4", "access:agMap@"+FuncName(f), P.InstrPos(ins), "grant map accessed by its accessor",
 					"the grant map is read or written outside RemoveAuthgrants / AddAuthGrant: grants could be consulted without being consumed")
 			}
 		})
